@@ -59,7 +59,7 @@ static int
 _print2fp(const void *buffer, size_t size, void *app_key) {
 	FILE *stream = (FILE *)app_key;
 
-	if(fwrite(buffer, 1, size, stream) != size)
+	if(size && fwrite(buffer, 1, size, stream) != size)
 		return -1;
 
 	return 0;
